@@ -54,6 +54,7 @@ func Or(a, b bool, more ...bool) bool           { panic("symbolic only") }
 func Not(a bool) bool                           { panic("symbolic only") }
 func Arg(i int) int                             { panic("symbolic only") }
 func Note(s string)                             { panic("symbolic only") }
+func ExpectAbortIf(input string, label string)  { panic("symbolic only") }
 func ErrorNew(msg string) error                 { panic("symbolic only") }
 func CtxCancelled(ctx interface{}) bool         { panic("symbolic only") }
 func CtxDeadline(ctx interface{}) (int64, bool) { panic("symbolic only") }
@@ -78,9 +79,21 @@ func (c *CallCtx) intArg(i int) int {
 	return int(signed(t.BV, t.S.W))
 }
 
+// input creates a named symbolic input; a name used twice on one path gets a #n suffix
+// (counted per path, so names are stable across paths and re-executions).
 func (e *Engine) input(st *State, name string, s Sort) *Term {
-	v := e.ts.Fresh(name, s)
-	st.inputs = append(st.inputs, InputRec{Name: v.Name, T: v})
+	n := 0
+	for _, in := range st.inputs {
+		if in.Base == name {
+			n++
+		}
+	}
+	full := name
+	if n > 0 {
+		full = fmt.Sprintf("%s#%d", name, n)
+	}
+	v := e.ts.Var(full, s)
+	st.inputs = append(st.inputs, InputRec{Name: full, Base: name, T: v})
 	return v
 }
 
@@ -94,7 +107,9 @@ func (e *Engine) rtCall(c *CallCtx) (Value, bool) {
 	case "Int32", "Uint32":
 		return e.input(st, c.strArg(0), BVSort(32)), true
 	case "Uint8":
-		return e.input(st, c.strArg(0), BVSort(8)), true
+		v := e.input(st, c.strArg(0), BVSort(8))
+		st.inputs[len(st.inputs)-1].Unsigned = true
+		return v, true
 	case "Str":
 		v := e.input(st, c.strArg(0), StringSort)
 		n := c.intArg(1)
@@ -302,6 +317,10 @@ func (e *Engine) rtCall(c *CallCtx) (Value, bool) {
 			return ts.Int(e.job.Args[i]), true
 		}
 		return ts.Int(0), true
+	case "ExpectAbortIf":
+		// an abort (logrus.Fatal / os.Exit) is the expected outcome iff the named Bool input is true
+		st.ghost["expectAbort"] = TupleV{e.ts.Var(c.strArg(0), BoolSort), e.ts.StrC(c.strArg(1))}
+		return nil, true
 	case "Note":
 		st.notes = append(st.notes, c.strArg(0))
 		return nil, true
@@ -389,7 +408,11 @@ func (e *Engine) recordViolation(st *State, kind, label, msg string, m Model) {
 		case SBool:
 			v.Inputs[in.Name] = cv.B
 		case SBV:
-			v.Inputs[in.Name] = signed(cv.BV, cv.S.W)
+			if in.Unsigned {
+				v.Inputs[in.Name] = cv.BV
+			} else {
+				v.Inputs[in.Name] = signed(cv.BV, cv.S.W)
+			}
 		default:
 			v.Inputs[in.Name] = cv.Str
 		}
@@ -407,4 +430,16 @@ func sigOf(label string, tags []string) string {
 		return label
 	}
 	return label + "[" + strings.Join(tags, ",") + "]"
+}
+
+// doAssertQuiet is doAssert for end-of-path obligations (no continuation).
+func (e *Engine) doAssertQuiet(st *State, cond *Term, label string) {
+	defer func() {
+		if r := recover(); r != nil {
+			if _, ok := r.(pathEnd); !ok {
+				panic(r)
+			}
+		}
+	}()
+	e.doAssert(st, cond, label)
 }
